@@ -375,3 +375,384 @@ def model_answer_matches(model, expected):
     if expected == "acq-by-exiting-thread":
         return m.startswith("acq ") and m.endswith(" running")
     return m == expected
+
+
+# ----------------------------------------------------------------------------------------------
+# DistributedPhotonSource stream
+
+WEIGHT_PATTERNS = {1: [[1.0]], 2: [[1.0, 1.0], [0.3, 0.7], [1.0, 9.0]], 3: [[1.0, 1.0, 1.0], [0.5, 0.3, 0.2], [1.0, 2.0, 4.0]],
+                   4: [[1.0, 1.0, 1.0, 1.0], [0.4, 0.3, 0.2, 0.1], [7.0, 1.0, 1.0, 1.0]]}
+
+
+def dps_case(N, levels, subs, lums):
+    tot = 0.0
+    for l in lums:
+        tot += l
+    ws = [l / tot for l in lums]
+    op = "dps %d %d | %s | %s" % (N, len(levels), " ".join(str(l) for l in levels),
+                                 " ".join("%d:%d" % (s, vlib.f2bits(w)) for s, w in zip(subs, ws)))
+    return op, ws
+
+
+def dps_ops(ctx):
+    import itertools
+    ops = []
+    nmax = 60
+    srcmax = ctx.budget(3, 4)
+    pats = ctx.budget(2, 3)
+    for N in range(1, nmax + 1):
+        for nsrc in range(1, srcmax + 1):
+            for lv in itertools.product([0, 1, 2], repeat=nsrc):
+                for lums in WEIGHT_PATTERNS[nsrc][:pats]:
+                    levels = list(lv) + [0] * (4 - nsrc)
+                    ops.append(dps_case(N, levels, list(range(nsrc)), lums))
+    for _ in range(ctx.budget(400, 6000)):
+        nsrc = ctx.rng.choice([1, 2, 3, 4, 5, 6])
+        nsub = 4
+        levels = [ctx.rng.choice([0, 0, 1, 2, 3]) for _ in range(nsub)]
+        subs = [ctx.rng.randrange(nsub) for _ in range(nsrc)]
+        lums = [ctx.rng.choice([ctx.rng.uniform(0.01, 10.), float(ctx.rng.randrange(1, 9)), 10. ** ctx.rng.uniform(-3, 3)]) for _ in range(nsrc)]
+        N = ctx.rng.choice([ctx.rng.randrange(1, 70), ctx.rng.randrange(1, 2000), ctx.rng.randrange(1, 200000), 200 * ctx.rng.randrange(1, 50),
+                            200 * ctx.rng.randrange(1, 50) + ctx.rng.choice([-1, 1])])
+        ops.append(dps_case(N, levels, subs, lums))
+    return ops
+
+
+def parse_kv(line):
+    d = {}
+    for w in line.split()[1:]:
+        if "=" in w:
+            k, v = w.split("=", 1)
+            d[k] = v
+    return d
+
+
+def dps_stream(ctx, harness):
+    cases = dps_ops(ctx)
+    ops = [c[0] for c in cases]
+    rc, out, err = vlib.run_exe(harness, "\n".join(ops) + "\n")
+    impl, orc = vlib.split_oracle(out)
+    st = ctx.cov["correspondence_streams"].setdefault("dps", {"lines": 0, "mismatches": 0, "oracle_failures": 0})
+    st["lines"] += len(ops)
+    st["oracle_failures"] += len(orc)
+    if rc != 0 or len(impl) != len(ops):
+        ctx.violation("dps:impl-crash", "DistributedPhotonSource harness exited with status %d after %d of %d answers: %s" % (rc, len(impl), len(ops), err[-300:]),
+                      {"stream": "dps", "ops": ops[max(0, len(impl) - 1):len(impl) + 1]})
+        return
+    for o in orc:
+        m = re.search(r"line=(\d+)", o)
+        i = int(m.group(1)) - 1 if m else 0
+        what = re.sub(r"line=\d+\s*", "", o[len("ORACLE"):]).strip()
+        ctx.violation("dps:" + what.split()[0], "DistributedPhotonSource: " + what, {"stream": "dps", "ops": [ops[i]], "oracle": o})
+    # model side: totals from (nthis, ncopy, picks), batches from the totals
+    mops, where = [], []
+    for i, l in enumerate(impl):
+        kv = parse_kv(l)
+        if "totals" not in kv:
+            continue
+        nthis = [int(x) for x in kv["nthis"].split(",")]
+        ncopy = kv["ncopy"].split(",")
+        # the truncated products are recomputed here as well (same IEEE operations as the constructor)
+        N = int(ops[i].split()[1])
+        mine = [int(N * w) for w in cases[i][1]]
+        if mine != nthis:
+            st["mismatches"] += 1
+            ctx.broken_obligation("stream 'dps': truncated source numbers differ: harness %s, expected %s for %r" % (nthis, mine, ops[i]))
+        picks = kv["picks"].split(",") if kv["picks"] else []
+        mops.append("split | %s | %s" % (" ".join("%d:%s" % (a, c) for a, c in zip(nthis, ncopy)), " ".join(picks)))
+        where.append((i, "totals"))
+        for t in sorted(set(int(x) for x in kv["totals"].split(","))):
+            mops.append("batches %d %d" % (200, t))
+            where.append((i, "batches", t))
+    rc, out, err = vlib.run_exe(vlib.driver("drv_c01"), "\n".join(mops) + "\n")
+    model = [l for l in out.split("\n") if l]
+    if rc != 0 or len(model) != len(mops):
+        ctx.broken_obligation("Lean driver drv_c01 failed on the dps stream (rc %d, %d of %d answers): %s" % (rc, len(model), len(mops), err[-300:]))
+        return
+    btab = {}
+    for w, m in zip(where, model):
+        i = w[0]
+        kv = parse_kv(impl[i])
+        if w[1] == "totals":
+            tot_model = m.split()[1:]
+            tot_impl = kv["totals"].split(",")
+            ctx.count()
+            nontrivial = len(tot_impl) > 1 or kv["picks"] != ""
+            ctx.distinct(ops[i], nontrivial=nontrivial)
+            ctx.branch("dps-overhead" if kv["picks"] else "dps-exact")
+            if len(set(kv["ncopy"].split(","))) > 1 or kv["ncopy"].split(",")[0] != "1":
+                ctx.branch("dps-copies")
+            if tot_model != tot_impl:
+                st["mismatches"] += 1
+                ctx.broken_obligation("stream 'dps': per-copy totals differ for %r: implementation %s, Lean model %s" % (ops[i], tot_impl, tot_model),
+                                      json.dumps({"stream": "dps", "ops": [ops[i]], "impl": impl[i], "model": m}))
+                if len(ctx.cov["samples"]) < 6:
+                    ctx.sample({"dps": ops[i], "impl": impl[i], "model": m})
+        else:
+            btab[(i, w[2])] = m.split()[1:]
+    # batches: per source copy, the real round-robin sequence must be the model's batch list
+    for i, l in enumerate(impl):
+        kv = parse_kv(l)
+        if "totals" not in kv:
+            continue
+        per = {}
+        for b in (kv["batches"].split(",") if kv["batches"] else []):
+            s, n = b.split(":")
+            per.setdefault(int(s), []).append(n)
+        for isrc, t in enumerate(kv["totals"].split(",")):
+            if per.get(isrc, []) != btab.get((i, int(t)), None):
+                st["mismatches"] += 1
+                ctx.broken_obligation("stream 'dps': batches of source copy %d differ for %r: implementation %s, Lean model %s"
+                                      % (isrc, ops[i], per.get(isrc, []), btab.get((i, int(t)))))
+                break
+    if len(ctx.cov["samples"]) < 2 and impl:
+        ctx.sample({"dps_op": ops[len(ops) // 2], "impl": impl[len(ops) // 2]})
+
+
+# ----------------------------------------------------------------------------------------------
+# photon stream: real runs, trace replay
+
+JITTERS_TRACE = ["verif_lock=300=2000,cas_lock=20=1500", "verif_lock=600=3000,cas_lock=40=2500,cas_unlock=10=500",
+                 "verif_lock=150=800,post_increment=100=300,pre_add=300=1500"]
+JITTERS_PLAIN = ["pre_subtract=1000=3000,cas_lock=30=4000", "pre_subtract=700=2000,cas_lock=60=2000,cas_unlock=20=1000",
+                 "pre_add=500=2000,cas_lock=40=3000,pre_subtract=500=1500"]
+
+
+def describe(c, threads, jitter):
+    return "%s subgrids %s periodic %s N=%d iterations=%d copy level %d diffuse=%s threads=%d%s" % (
+        c.get("mode"), "x".join(str(x) for x in c["layout"]), "".join("ty"[0] if p else "n" for p in c["per"]), c["N"], c.get("iters", 2),
+        c.get("copy", 0), c.get("diffuse"), threads, " jitter=" + jitter if jitter else "")
+
+
+def run_and_check(ctx, E, binary, job, drv_jobs):
+    """job = dict(cfg, threads, jitter (or None), trace (bool)); returns nothing, records into ctx"""
+    c, threads, jitter, trace = job["cfg"], job["threads"], job.get("jitter"), job.get("trace", True)
+    res = job["res"]
+    rep = {"config": c, "threads": threads, "jitter": jitter, "trace_on": trace, "param": ion_param(c),
+           "sources_yml": sources_yml(c["sources"]) if len(c.get("sources", [])) > 1 else None,
+           "cmd": "%sCMacIonize --params run.param --task-based --threads %d" % (("LD_PRELOAD=libc01_jitter.so CMAC_VERIF_JITTER=%s " % jitter) if jitter else "", threads)}
+    ctx.count()
+    stream = "jitter" if jitter else "photon"
+    st = ctx.cov["correspondence_streams"].setdefault(stream, {"runs": 0, "lines": 0, "mismatches": 0, "oracle_failures": 0})
+    st["runs"] += 1
+    what = describe(c, threads, jitter)
+    if res["timed_out"]:
+        its = split_iterations(res["trace"])
+        ctx.violation("photon:run-hangs", "the run did not finish within %d s (%s); %d iterations started; last log line: %s"
+                      % (job["timeout"], what, len(its), res["log"].strip().split("\n")[-1][-160:]), dict(rep, trace_tail=res["trace"][-60:]))
+        st["oracle_failures"] += 1
+        return
+    if res["rc"] != 0:
+        ctx.violation("photon:run-failed", "the run exited with status %d (%s): %s" % (res["rc"], what, res["log"].strip()[-300:]),
+                      dict(rep, trace_tail=res["trace"][-60:]))
+        st["oracle_failures"] += 1
+        return
+    if not trace:
+        if len(res.get("diagnostics", [])) != c.get("iters", 2):
+            ctx.violation("photon:run-failed", "the run ended after %d of %d iterations (%s)" % (len(res.get("diagnostics", [])), c.get("iters", 2), what), rep)
+        return
+    its = split_iterations(res["trace"])
+    if len(its) != c.get("iters", 2):
+        ctx.broken_obligation("photon trace of %s has %d iterations, expected %d (hook H2 missing?)" % (what, len(its), c.get("iters", 2)), res["log"][-400:])
+        return
+    ctx.distinct((tuple(c["layout"]), tuple(c["per"]), c["N"], c.get("copy", 0), c.get("mode"), bool(c.get("diffuse")), threads, jitter),
+                 nontrivial=(c["layout"] != (1, 1, 1) or c.get("diffuse") or c["N"] > 200))
+    for it in its:
+        bad = trace_oracles(E, it)
+        for (key, text) in bad[:4]:
+            st["oracle_failures"] += 1
+            ctx.violation(key, "%s (%s)" % (text, what), dict(rep, trace=[" ".join([k] + [str(x) for x in v]) for (k, v) in it["events"] if k != "PG"][:3000]))
+        ops, exp = iteration_ops(E, it)
+        drv_jobs.append((ops, exp, rep, what, it["PI"][0], bool(bad)))
+        if bad:
+            break      # later iterations start from a dirty state
+    if len(ctx.cov["samples"]) < 5:
+        ctx.sample({"config": what, "trace_lines": len(res["trace"]), "head": [l for l in res["trace"] if " PG " not in l][:8]})
+
+
+def replay_traces(ctx, drv_jobs):
+    """all iterations through one driver process"""
+    all_ops = []
+    for (ops, exp, rep, what, iloop, dirty) in drv_jobs:
+        all_ops += ops
+    if not all_ops:
+        return
+    rc, out, err = vlib.run_exe(vlib.driver("drv_c01"), "\n".join(all_ops) + "\n")
+    model = [l for l in out.split("\n") if l]
+    if rc != 0:
+        ctx.broken_obligation("Lean driver drv_c01 failed (rc %d): %s" % (rc, err[-300:]))
+    pos = 0
+    for (ops, exp, rep, what, iloop, dirty) in drv_jobs:
+        st = ctx.cov["correspondence_streams"]["jitter" if rep["jitter"] else "photon"]
+        st["lines"] += len(ops)
+        for i in range(len(ops)):
+            m = model[pos + i] if pos + i < len(model) else "<missing>"
+            if " #" in m:
+                ctx.branch(m.split(" #")[1].strip())
+            if not model_answer_matches(m, exp[i]):
+                st["mismatches"] += 1
+                if not dirty:
+                    obj = dict(rep, iteration=iloop, ops=ops[:i + 1][-400:], impl=exp[i], model=m)
+                    if "DISABLED" in m:
+                        ctx.violation("photon:event-not-allowed", "iteration %d of %s: the implementation performed '%s' (logged: %s), which the protocol model does not allow in that state (%s)"
+                                      % (iloop, what, ops[i], exp[i], vlib.strip_branch(m)), obj)
+                    else:
+                        ctx.broken_obligation("correspondence stream 'photon': iteration %d of %s, op %r: implementation %r, Lean model %r"
+                                              % (iloop, what, ops[i], exp[i], vlib.strip_branch(m)), json.dumps(obj, default=str)[:3000])
+                break
+        pos += len(ops)
+
+
+def corpus_jobs():
+    jobs = []
+    d = os.path.join(vlib.VERIF, "corpus", "C01")
+    if os.path.isdir(d):
+        for f in sorted(os.listdir(d)):
+            for l in open(os.path.join(d, f)):
+                l = l.strip()
+                if l and not l.startswith("#"):
+                    j = json.loads(l)
+                    j["cfg"]["layout"] = tuple(j["cfg"]["layout"])
+                    j["cfg"]["per"] = tuple(j["cfg"]["per"])
+                    j["cfg"]["sources"] = [tuple(s) for s in j["cfg"].get("sources", [])]
+                    jobs.append(j)
+    return jobs
+
+
+def fixed_jobs():
+    """configurations every run contains: the smallest ones and the ones that once failed"""
+    one = dict(layout=(1, 1, 1), per=(False, False, False), copy=0, sources=[], continuous=True, diffuse=False, density="0.02", seed=7, mode="continuous")
+    jobs = []
+    for N in (200, 400, 1):
+        jobs.append(dict(cfg=dict(one, N=N, iters=3), threads=4, jitter=None))
+    star = [(0.1, 0.1, 0.1, "1.0e+30")]
+    jobs.append(dict(cfg=dict(layout=(2, 2, 2), per=(False, False, False), N=1234, iters=2, copy=1, sources=star, continuous=False, diffuse=False,
+                              density="0.02", seed=42, mode="discrete"), threads=4, jitter=None))
+    jobs.append(dict(cfg=dict(layout=(1, 1, 2), per=(True, True, True), N=201, iters=2, copy=2, sources=star, continuous=True, diffuse=True, reprob="0.7",
+                              density="0.05", seed=3, mode="both"), threads=8, jitter=None))
+    jobs.append(dict(cfg=dict(layout=(4, 1, 1), per=(True, False, False), N=199, iters=2, copy=0, sources=star, continuous=False, diffuse=True, reprob="0.95",
+                              density="0.3", seed=5, mode="discrete"), threads=1, jitter=None))
+    return jobs
+
+
+def make_jobs(ctx):
+    jobs = corpus_jobs() + fixed_jobs()
+    for _ in range(ctx.budget(26, 330)):
+        jobs.append(dict(cfg=random_config(ctx.rng, quick=not ctx.thorough), threads=ctx.rng.choice([1, 2, 4, 8]), jitter=None))
+    # seeded scheduling jitter, traced (replayed through the model) ...
+    one = dict(layout=(1, 1, 1), per=(False, False, False), copy=0, sources=[], continuous=True, diffuse=False, density="0.02", seed=7, mode="continuous")
+    for k in range(ctx.budget(10, 80)):
+        c = dict(one, N=ctx.rng.choice([200, 200, 400, 600, 201]), iters=3) if k % 2 == 0 else random_config(ctx.rng)
+        if k % 2 == 1:
+            c["N"] = min(c["N"], 600)
+        jobs.append(dict(cfg=c, threads=ctx.rng.choice([2, 4, 4, 8]), jitter="%d:%s" % (ctx.rng.randrange(1, 10 ** 6), ctx.rng.choice(JITTERS_TRACE))))
+    # ... and untraced (the trace mutex is not taken: the interleavings of the unhooked code)
+    for k in range(ctx.budget(12, 100)):
+        c = dict(one, N=ctx.rng.choice([200, 200, 400, 800]), iters=3) if k % 3 != 2 else random_config(ctx.rng)
+        if k % 3 == 2:
+            c["N"] = min(c["N"], 600)
+            c["continuous"] = True
+            c["mode"] = "both" if c["sources"] else "continuous"
+        jobs.append(dict(cfg=c, threads=ctx.rng.choice([2, 4, 4, 8]), jitter="%d:%s" % (ctx.rng.randrange(1, 10 ** 6), ctx.rng.choice(JITTERS_PLAIN)), trace=False))
+    return jobs
+
+
+EXPECTED_BRANCHES = ["launch-discrete", "launch-continuous", "acquire", "enqueue", "exec-source", "cont-overflow", "cont-finish", "cont-finish-flush",
+                     "flush-one", "flush-finish", "traverse", "traverse-overflow", "traverse-newactive", "traverse-gone", "reemit-none", "reemit-some",
+                     "premature-traverse", "premature-reemit", "termination", "dps-overhead", "dps-exact", "dps-copies"]
+
+
+def run(ctx):
+    from concurrent.futures import ThreadPoolExecutor
+    ctx.level = "proof"
+    ctx.assumptions += [
+        "a task's bookkeeping (commit) is one atomic step of an interleaving semantics: it runs under the subgrid lock (C08 proves the locks); the trace hook H2 wraps the commit and its log record in one mutex region, so the log order is a valid order of the commits",
+        "the physics inside a task is abstracted: exit direction of every packet, re-emission decision and target subgrid of a continuous-source packet are universally quantified inputs of the labels",
+        "capacities of the buffer pool, task table and queues are not exhausted (free ids are label parameters; no_stuck is not proved, see note)",
+        "sequentially consistent atomics; the non-atomic read pair (is_empty, num_photon_done) of the termination test is modelled as one read (the hook order makes every logged PZ consistent, replay checks it)",
+        "--task-plot is off (otherwise tasks are deliberately kept until the end of the iteration)",
+        "the photon loop of TaskBasedRadiationHydrodynamicsSimulation.cpp is covered at the protocol level (no continuous source => no task can be obtained after the flag was cleared, theorem after_termination_only_packet_free_tasks); its traces are not replayed in the quick tier",
+    ]
+    ok = ctx.obligations("CMacVerif.Props.C01", ["drv_c01"])
+    E = simrun.enums()
+    if E.get("PHOTONBUFFER_SIZE") != 200:
+        ctx.broken_obligation("PHOTONBUFFER_SIZE is %r in the code but 200 in the Lean model (Photon.BUFSZ)" % E.get("PHOTONBUFFER_SIZE"))
+    harness = vlib.build_harness("c01")
+    binary = vlib.full_binary()
+    jitter_lib()
+    ctx.cov["rule"] = ("dps: N 1..60 x 1..%d sources x copy counts {1,2,4}^sources x weight patterns (exhaustive) + random (N up to 2e5, up to 6 sources, copy counts up to 8); "
+                       "photon: real runs on generated configurations (1..4 subgrids per axis, periodic or not, copy level 0..2, discrete / continuous / both sources with 1..4 point sources, "
+                       "diffuse field on/off, N in {1,2,7,199,200,201,399,400,401,600,1000,1234,2001,3217}, 1..3 iterations, 1/2/4/8 threads), every trace record replayed through Photon.step; "
+                       "jitter: the same with seeded delays at the H1 yield points, traced and untraced; distinct = (layout, periodicity, N, copy level, source mix, diffuse, threads, jitter); "
+                       "non-trivial = more than one subgrid, or diffuse field, or more than one buffer of packets" % ctx.budget(3, 4))
+    if ok:
+        dps_stream(ctx, harness)
+    jobs = make_jobs(ctx)
+    for j in jobs:
+        j["timeout"] = 90 if j.get("jitter") else 60
+
+    def work(j):
+        try:
+            return run_config(binary, j["cfg"], j["threads"], jitter=j.get("jitter"), trace=j.get("trace", True), timeout=j["timeout"])
+        except Exception as e:  # noqa
+            return dict(rc=-1, timed_out=False, log="run failed to start: %r" % (e,), trace=[], diagnostics=[])
+    with ThreadPoolExecutor(max_workers=ctx.budget(4, 6)) as ex:
+        results = list(ex.map(work, jobs))
+    drv_jobs = []
+    hung = 0
+    for j, res in zip(jobs, results):
+        j["res"] = res
+        run_and_check(ctx, E, binary, j, drv_jobs)
+    if ok:
+        replay_traces(ctx, drv_jobs)
+    missing = [b for b in EXPECTED_BRANCHES if b not in ctx.cov["branch_histogram"]]
+    ctx.cov["branches_not_reached"] = missing
+    if missing and ctx.thorough:
+        ctx.notes.append("coverage gate: model branches never taken in this run: %s" % ", ".join(missing))
+
+
+def replay(ctx, path):
+    obj = json.load(open(path))
+    print(json.dumps({k: v for k, v in obj.items() if k not in ("trace", "ops", "param", "trace_tail", "config", "sources_yml")}, indent=1)[:3000])
+    if obj.get("stream") == "dps":
+        h = vlib.build_harness("c01")
+        rc, out, err = vlib.run_exe(h, "\n".join(obj["ops"]) + "\n")
+        print(out)
+        bad = "ORACLE" in out or rc != 0
+        print("REPRODUCED" if bad else "not reproduced")
+        return 1 if bad else 0
+    if "config" not in obj:
+        print("replay file names a broken obligation, not an input; nothing to execute")
+        return 1
+    c = obj["config"]
+    c["layout"], c["per"] = tuple(c["layout"]), tuple(c["per"])
+    c["sources"] = [tuple(s) for s in c.get("sources", [])]
+    E = simrun.enums()
+    binary = vlib.full_binary()
+    tries = 12 if obj.get("jitter") else 3
+    for k in range(tries):
+        jit = obj.get("jitter")
+        if jit and k > 0:   # schedule dependent: vary the jitter seed
+            jit = "%d:%s" % (int(jit.split(":")[0]) + k, jit.split(":", 1)[1])
+        res = run_config(binary, c, obj.get("threads", 1), jitter=jit, trace=obj.get("trace_on", True), timeout=90)
+        bad = []
+        if res["timed_out"]:
+            bad = [("photon:run-hangs", "run did not finish")]
+        elif res["rc"] != 0:
+            bad = [("photon:run-failed", "exit status %d" % res["rc"])]
+        else:
+            for it in split_iterations(res["trace"]):
+                bad += trace_oracles(E, it)
+        print("try %d (jitter %s): %s" % (k, jit, bad[:3] if bad else "clean"))
+        if bad:
+            print("REPRODUCED")
+            return 1
+    print("not reproduced on these schedules (schedule-dependent; the recorded trace is in the replay file)")
+    return 0
+
+
+MANIFEST = dict(
+    category="proof",
+    text="Lean theorems over EVERY execution of the photon-packet protocol of a task-based photoionization iteration (arbitrary interleaving of the committed task actions, any number of threads, any subgrid layout / periodicity / copy wiring, discrete and continuous sources, re-emission on or off, any packet number, physics outcome of every task universally quantified): exact split of the requested number over sources and subgrid copies (split_total, batches_total); conservation N = done + sources + source tasks + buffers in use + continuous buffers (conservation); every buffer in use has exactly one owner, a task or one active-buffer entry, with 1..200 resp. 1..199 packets (ownership); no packet terminated twice, each exactly once when done = N (exactly_once, ghost packet identifiers); run flag cleared => done = N and no buffer, active buffer, source or continuous-buffer content left (termination_sound); on top, the worker loop of the threads (lstep, loop condition after fix f78e960): a dequeued task always has a live holder and when all threads have left the loop NO task, queue entry, lock or buffer is left (nothing_left_behind). Tied to the code by replaying every record of the hook-H2 trace of real multi-thread CMacIonize --task-based runs (also under seeded scheduling jitter) through the same Lean step function, by the same statements evaluated directly on the trace, and by a differential test of DistributedPhotonSource.",
+    note="Trusted: Lean kernel + 3 axioms; hand model of the seven task contexts, MemorySpace::add_photons, the photon loop and DistributedPhotonSource; task-level atomicity of commits (lock discipline is C08) and sequentially consistent atomics; the trace hook serialises commit bookkeeping (not the physics) through one mutex. NOT proved: no_stuck (done < N => some label enabled) and termination with probability 1 under re-emission; capacities of buffer pool / task table / queues are assumed sufficient. A run that does not finish within 60-90 s or dies is reported as a violation. The RHD photon loop is covered by the protocol theorems only (discrete sources: no task exists after termination).",
+    technique="Lean 4 proof (inductive invariant + weight function generic in a packet weight: length gives conservation, indicator gives exactly-once; thread-loop invariant on top) + trace refinement check against the real hooked binary under scheduling jitter + differential harness")
